@@ -438,6 +438,10 @@ def recursive_templates(rng, draft, leaf):
     every node."""
     idkw = IDKW[draft]
     yield "tree-through-hash", {"properties": {"v": leaf, "kids": {"items": {"$ref": "#"}}}}, {}
+    # the empty reference designates the current document (only generated under fragment-free bases)
+    yield "tree-through-empty-ref", {"properties": {"v": leaf, "kids": {"items": {"$ref": ""}}}}, {}
+    yield "tree-through-empty-ref-with-id", {idkw: ROOT_URL, "properties": {"v": leaf, "kids": {"items": {"$ref": ""}},
+                                                                   "head": {"$ref": "root.json"}}}, {}
     yield "list-through-definition", {
         "definitions": {"n": {"properties": {"v": leaf, "next": {"$ref": "#/definitions/n"}}}},
         "properties": {"head": {"$ref": "#/definitions/n"}}}, {}
